@@ -2573,7 +2573,12 @@ class WorkflowGraph(object):
             variable_substitute(bool): Whether to perform variable substitution, optional for a primitive graph
                 but required for a replicated one
         """
-        concrete = experiment.model.frontends.flowir.FlowIRConcrete(flowir, platform, documents)
+        try:
+            concrete = experiment.model.frontends.flowir.FlowIRConcrete(flowir, platform, documents)
+        except experiment.model.errors.FlowIRException as e:
+            # VV: e.g. duplicate components - report it like every other problem with the configuration
+            raise experiment.model.errors.ExperimentInvalidConfigurationError(
+                'Errors when loading configuration', experiment.model.errors.FlowIRConfigurationErrors([e]))
 
         exp_conf = experiment.model.conf.FlowIRExperimentConfiguration(
             concrete=concrete, path=None, is_instance=False, primitive=primitive, manifest=manifest,
